@@ -176,8 +176,9 @@ Observe ==
 ObserveLeaked ==
   /\ Quiet /\ Budget /\ st.no < MaxObs
   /\ \E i \in 1..Len(st.leaked) :
-        /\ st.valid[st.leaked[i]]
-        /\ ScopeNecessary(st, st.leaked[i])     \* well-formedness (DESIGN 3.2)
+        \* well-formedness (DESIGN 3.2): a VALID bind-created node may only be made necessary while
+        \* its defining bind is necessary; an invalidated one may be observed freely (ObservingInvalid)
+        /\ (st.valid[st.leaked[i]] => ScopeNecessary(st, st.leaked[i]))
         /\ Do([a |-> "observe_leaked", i |-> i], ApiObserve(st, st.leaked[i]))
 DropObs ==
   /\ Quiet /\ Budget
